@@ -2263,6 +2263,8 @@ class CodeGenerator(StructuredCodeGenerator):
                         (var(self.component_name_to_component_sym(
                             inst.component_id)),)))
 
+        self.emit_deinit_for_last_usage_of_vars(inst)
+
     def emit_deinit_for_last_usage_of_vars(self, inst):
         """Check if, for any of the variables in instruction *inst*,
         *inst* contains the last use of that variable in the
